@@ -17,6 +17,7 @@ import (
 	"crypto/sha512"
 	"encoding/hex"
 	"encoding/json"
+	"errors"
 	"fmt"
 	"math/rand/v2"
 	"os"
@@ -61,7 +62,7 @@ func main() {
 		"Add -> pack (root kind in {PackManifest v1.1, v1.0, deprecated Pack as artifact manifest, deprecated Pack as image manifest, hand-built Docker v2 manifest, OCI index over two such manifests with the layers split or shared}) -> Copy (-> Copy) into a second file store; restored trees compared with on-disk snapshots of the sources (paths, types, bytes, link targets, modes); " +
 		"phase repro: twin trees differing in timestamps, owners, creation order and hard links must give equal descriptors under TarReproducible; " +
 		"phase tamper: a directory blob with a wrong io.deis.oras.content.digest (or changed archive under the recorded digest) must be refused, the untampered one accepted and restored; " +
-		"phase dup: 2-4 names with equal bytes, and (1 in 3) a directory together with a plain named file holding the bytes of its tar+gzip blob, either one listed first, Copy concurrency in {default, 1, 2, 8}, with and without ForceCAS. " +
+		"phase dup: 2-4 names with equal bytes, and (1 in 3) a directory together with a plain named file holding the bytes of its tar+gzip blob, either one listed first, Copy concurrency in {default, 1, 2, 8}, with and without ForceCAS; (1 in 2) a file with other bytes already at one of the single-file names in the second working directory, DisableOverwrite on or off: the copy either fails with ErrOverwriteDisallowed or every name holds the right bytes. " +
 		"distinct = (tree-shape hashes of the items, option set, intermediate, umask); non-trivial = some tree has >= 1 nested directory, >= 1 symlink or long name and >= 3 files " +
 		"(phase dup: >= 2 equal-bytes names with one media type, so that Copy de-duplicates them)")
 	r.Assume("the checks run as root: permission-denied effects (unreadable sources, unwritable restored directories) do not occur and are not explored")
@@ -82,7 +83,7 @@ func main() {
 	worker.Run(r, worker.Opts{Phase: "pipe", Total: r.N(320, 6000), Batch: r.N(10, 40), OnResult: tally})
 	worker.Run(r, worker.Opts{Phase: "repro", Total: r.N(160, 2500), Batch: r.N(10, 40), OnResult: tally})
 	worker.Run(r, worker.Opts{Phase: "tamper", Total: r.N(160, 2500), Batch: r.N(10, 40), OnResult: tally})
-	worker.Run(r, worker.Opts{Phase: "dup", Total: r.N(240, 2500), Batch: r.N(10, 40), OnResult: tally})
+	worker.Run(r, worker.Opts{Phase: "dup", Total: r.N(360, 3500), Batch: r.N(10, 40), OnResult: tally})
 	if len(violKeys) > 0 {
 		r.Set("cases_per_violation_key", violKeys)
 	}
@@ -100,6 +101,9 @@ func main() {
 		{"dup_restored_by_store", int64(r.N(20, 300))},
 		{"dup_forcecas_deduped", int64(r.N(10, 150))},
 		{"dup_dir_and_archive_restored", int64(r.N(8, 120))},
+		{"dup_preexisting_file_planted", int64(r.N(60, 600))},
+		{"dup_overwrite_refused", int64(r.N(20, 200))},
+		{"dup_preexisting_file_overwritten", int64(r.N(10, 100))},
 		{"dup_restored_under_artifact_manifest", int64(r.N(2, 40))},
 		{"dup_restored_under_docker_manifest", int64(r.N(2, 40))},
 		{"dup_restored_under_index", int64(r.N(2, 40))},
@@ -175,7 +179,8 @@ type item struct {
 	Link      string `json:"added_through_symlink,omitempty"` // the path given to Add is a symbolic link: rel, abs, chain-rel, chain-abs
 	LinkText  string `json:"symlink_text,omitempty"`
 	linkPath  string
-	TwinOf    string `json:"archive_of,omitempty"` // this single file holds the very bytes of that directory item's blob
+	Planted   string `json:"preexisting_file_sha256,omitempty"` // a file with other bytes was at this name in the second working directory
+	TwinOf    string `json:"archive_of,omitempty"`              // this single file holds the very bytes of that directory item's blob
 	twinOf    *item
 	twinMT    bool   // same media type as the directory blob
 	Old       *tree  `json:"prepopulated_with,omitempty"` // earlier version found in the second working directory
@@ -189,6 +194,7 @@ type item struct {
 
 type options struct {
 	TarReproducible, PreservePermissions, SkipUnpack, ForceCAS, IgnoreNoName bool
+	DisableOverwrite                                                         bool // dup phase only, receiving store only
 }
 
 func (o options) String() string {
@@ -196,7 +202,7 @@ func (o options) String() string {
 	for _, f := range []struct {
 		b bool
 		c string
-	}{{o.TarReproducible, "R"}, {o.PreservePermissions, "P"}, {o.SkipUnpack, "S"}, {o.ForceCAS, "C"}, {o.IgnoreNoName, "I"}} {
+	}{{o.TarReproducible, "R"}, {o.PreservePermissions, "P"}, {o.SkipUnpack, "S"}, {o.ForceCAS, "C"}, {o.IgnoreNoName, "I"}, {o.DisableOverwrite, "D"}} {
 		if f.b {
 			s += f.c
 		} else {
@@ -214,6 +220,7 @@ func (o options) apply(s *file.Store, second bool) {
 	// IgnoreNoName discards the manifest itself: it only makes sense on the
 	// store that receives the copy
 	s.IgnoreNoName = o.IgnoreNoName && second
+	s.DisableOverwrite = o.DisableOverwrite && second
 }
 
 // genTitle returns a title (file-store name) and its cleaned form.
@@ -558,6 +565,64 @@ func casePipe(res *worker.Result, rng *rand.Rand, root string, idx int, dupPhase
 		}
 		from = h.Target
 	}
+	// ---- dup phase: another file may already sit at one of the names, and the store may refuse to overwrite
+	if dupPhase && rng.IntN(2) == 0 {
+		var singles []*item
+		for _, it := range items {
+			if it.Tree.Single {
+				singles = append(singles, it)
+			}
+		}
+		if len(singles) > 0 {
+			it := singles[rng.IntN(len(singles))]
+			p := filepath.Join(dstWD, filepath.FromSlash(it.Name))
+			other := fillBytes(entry{Size: 1 + rng.IntN(5000), Fill: 2, Seed: rng.Uint64()})
+			if err := os.MkdirAll(filepath.Dir(p), 0o755); err != nil {
+				fail("harness:plant", err.Error())
+				return
+			}
+			if err := os.WriteFile(p, other, 0o644); err != nil {
+				fail("harness:plant", err.Error())
+				return
+			}
+			sum := sha256.Sum256(other)
+			it.Planted = hex.EncodeToString(sum[:])
+			o.DisableOverwrite = rng.IntN(3) != 0
+			res.Count("dup_preexisting_file_planted", 1)
+		}
+	} else if dupPhase {
+		o.DisableOverwrite = rng.IntN(6) == 0
+	}
+	planted := false
+	for _, it := range items {
+		if it.Planted != "" {
+			planted = true
+		}
+	}
+	// written: the name exists and does not simply still hold the file that was there before
+	written := func(it *item) (bool, error) {
+		p := filepath.Join(dstWD, filepath.FromSlash(it.Name))
+		info, err := os.Lstat(p)
+		if err != nil {
+			return false, err
+		}
+		if it.Planted != "" && info.Mode().IsRegular() {
+			if sum, _, err := fileSum(p); err == nil && sum == it.Planted {
+				return false, fmt.Errorf("the name still holds the file that was there before the copy")
+			}
+		}
+		return true, nil
+	}
+	refused := func(err error) bool {
+		// a store told not to overwrite may refuse the copy; it may not report success and leave the old file
+		if o.DisableOverwrite && planted && errors.Is(err, file.ErrOverwriteDisallowed) {
+			res.Count("dup_overwrite_refused", 1)
+			res.Observe("option_sets", o.String())
+			res.Key = fmt.Sprintf("overwrite-refused|%s|%s|%s", o.String(), mid, mkind)
+			return true
+		}
+		return false
+	}
 	// ---- the second working directory may already hold an earlier version
 	prepop := !dupPhase && rng.IntN(3) == 0
 	varyDirs := prepop && rng.IntN(4) == 0
@@ -597,13 +662,17 @@ func casePipe(res *worker.Result, rng *rand.Rand, root string, idx int, dupPhase
 	if o.IgnoreNoName || rng.IntN(4) == 0 {
 		// an IgnoreNoName store discards the manifest and therefore cannot be tagged
 		if err := oras.CopyGraph(ctx, from, fs2, manifest, copyOpts.CopyGraphOptions); err != nil {
-			pipelineErr("CopyGraph("+mid+"->file)", err)
+			if !refused(err) {
+				pipelineErr("CopyGraph("+mid+"->file)", err)
+			}
 			return
 		}
 	} else {
 		got, err := oras.Copy(ctx, from, tag, fs2, tag, copyOpts)
 		if err != nil {
-			pipelineErr("Copy("+mid+"->file)", err)
+			if !refused(err) {
+				pipelineErr("Copy("+mid+"->file)", err)
+			}
 			return
 		}
 		if got.Digest != manifest.Digest {
@@ -633,8 +702,7 @@ func casePipe(res *worker.Result, rng *rand.Rand, root string, idx int, dupPhase
 				res.Violate(key+":prepopulated", what+" [the target held an earlier version, created "+it.PreHow+"]", wit())
 			}
 		}
-		_, lerr := os.Lstat(dstPath)
-		present := lerr == nil
+		present, lerr := written(it)
 		if len(groups[it.desc.Digest.String()]) > 1 {
 			if !present {
 				continue // judged per group below
@@ -652,6 +720,9 @@ func casePipe(res *worker.Result, rng *rand.Rand, root string, idx int, dupPhase
 		switch {
 		case it.Tree.Single:
 			res.Count("items_file", 1)
+			if it.Planted != "" {
+				res.Count("dup_preexisting_file_overwritten", 1)
+			}
 			s, g := it.src[""], got[""]
 			if g.Type != "file" {
 				fail("type-changed:file-to-"+g.Type, fmt.Sprintf("single file %s restored as %s", q(it.Name), g.Type))
@@ -746,6 +817,7 @@ func casePipe(res *worker.Result, rng *rand.Rand, root string, idx int, dupPhase
 		mts := map[string]int{}
 		var missing []string
 		withDir := ""
+		stale := false // a missing name still holds the file that was there before
 		for n, it := range g {
 			if !it.Tree.Single {
 				withDir = "dir-first"
@@ -754,10 +826,13 @@ func casePipe(res *worker.Result, rng *rand.Rand, root string, idx int, dupPhase
 				}
 			}
 			mts[it.desc.MediaType]++
-			if _, err := os.Lstat(filepath.Join(dstWD, filepath.FromSlash(it.Name))); err == nil {
+			if ok, _ := written(it); ok {
 				present++
 			} else {
 				missing = append(missing, it.Name)
+				if it.Planted != "" {
+					stale = true
+				}
 			}
 		}
 		for _, n := range mts {
@@ -780,10 +855,14 @@ func casePipe(res *worker.Result, rng *rand.Rand, root string, idx int, dupPhase
 			}
 		case present < len(g):
 			k := "dup-names:not-materialised"
+			what := fmt.Sprintf("%d names with equal bytes, ForceCAS off: %d missing after the copy: %s", len(g), len(missing), q(strings.Join(missing, ", ")))
 			if o.IgnoreNoName {
 				k += ":ignore-no-name"
+			} else if stale {
+				k += ":preexisting-file-kept"
+				what += fmt.Sprintf(" (the copy reported success; the name still holds the other file that was there before; DisableOverwrite=%v)", o.DisableOverwrite)
 			}
-			fail(k, fmt.Sprintf("%d names with equal bytes, ForceCAS off: %d missing after the copy: %s", len(g), len(missing), q(strings.Join(missing, ", "))))
+			fail(k, what)
 		default:
 			if sameMT >= 2 && withDir != "" {
 				res.Count("dup_dir_and_archive_restored", 1)
